@@ -24,6 +24,8 @@ def g_obstacle_shape(r):
     """Obstacle shapes are given in the obstacle frame (centre 0, orientation 0)."""
     k = r.choice(["rect", "rect", "rect", "circ", "poly"])
     if k == "rect":
+        if r.random() < 0.15:  # off-centre / rotated reference of the shape in the obstacle frame
+            return ["rect", r.choice([2.0, 4.5]), r.choice([1.0, 2.0]), 0.5, -0.25, r.choice([0.0, 0.3])]
         return ["rect", r.choice([2.0, 4.5, 1.0]), r.choice([1.0, 2.0]), 0.0, 0.0, 0.0]
     if k == "circ":
         return ["circ", r.choice([0.5, 1.5]), 0.0, 0.0]
@@ -65,6 +67,10 @@ def g_set_pred(r, t0):
             t += 1
         if r.random() < 0.15:
             t += r.choice([1, 2])  # hole in the prediction
+    init0 = occs[0]["t"][0] if isinstance(occs[0]["t"], list) else occs[0]["t"]
+    if r.random() < 0.25:
+        r.shuffle(occs)  # the list need not be ordered by time
+    return {"kind": "set", "init": init0, "occs": occs}
     return {"kind": "set", "init": occs[0]["t"][0] if isinstance(occs[0]["t"], list) else occs[0]["t"], "occs": occs}
 
 
@@ -99,6 +105,8 @@ def g_obstacle(r, oid, role=None, focus=False):
                 o["sigs"] = [g_signal(r) for _ in range(r.choice([0, 1, n, n + 1]))]
         elif k == "set":
             o["pred"] = g_set_pred(r, t0 + 1)
+        if r.random() < 0.15:
+            o["history"] = {"pos": [r.choice(Q), r.choice(Q)], "orient": 0.0, "vel": 1.0}
     elif r.random() < 0.3:
         o["sigs"] = [g_signal(r) for _ in range(r.choice([0, 1, 3]))]
     return o
@@ -112,9 +120,10 @@ def g_network(r):
     rows, cols = {"one": (1, 1), "pair": (2, 1), "grid": (2, 2), "opp": (2, 1)}[shape]
     ln, w = r.choice([0.1, 5.0, 20.0, 30.0]), r.choice([1.0, 3.5])
     lid = lambda i, j: 10 + i * 10 + j  # noqa: E731
+    zed = r.choice([None, None, None, 0.0, 2.5])
     for j in range(cols):
         for i in range(rows):
-            l = {"id": lid(i, j), "x0": j * ln, "y0": -i * w, "len": ln, "width": w, "n": r.choice([2, 2, 3, 5]),
+            l = {"id": lid(i, j), "x0": j * ln, "y0": -i * w, "len": ln, "width": w, "n": r.choice([2, 2, 3, 5]), "z": zed,
                  "lmL": r.choice(LM_NAMES), "lmR": r.choice(LM_NAMES)}
             if i > 0:
                 l["adjL"], l["adjLsame"] = lid(i - 1, j), shape != "opp"
@@ -134,7 +143,8 @@ def g_network(r):
         host.setdefault("signs", []).append(sid)
         elem, vals = r.choice([("MAX_SPEED", ["13.9"]), ("STOP", []), ("YIELD", []), ("PRIORITY", []),
                                ("MIN_SPEED", ["5"]), ("GREEN_ARROW", [])])
-        spec["signs"].append({"id": sid, "elem": elem, "vals": vals, "pos": [host["x0"] + r.choice([0.0, 1.0]), host["y0"] + 2.0],
+        spec["signs"].append({"id": sid, "elem": elem, "vals": vals,
+                              "pos": None if r.random() < 0.1 else [host["x0"] + r.choice([0.0, 1.0]), host["y0"] + 2.0],
                               "first": [host["id"]] if r.random() < 0.7 else [], "virtual": r.random() < 0.2})
     states = ["RED", "RED_YELLOW", "GREEN", "YELLOW", "INACTIVE"]
     for k in range(r.choice([0, 0, 1, 2])):
@@ -145,7 +155,7 @@ def g_network(r):
         cyc = [[r.choice(states), r.choice([1, 2, 5])] for _ in range(r.choice([1, 2, 4]))]
         spec["lights"].append({"id": tid, "pos": None if r.random() < 0.1 else [host["x0"] + ln, host["y0"] + r.choice([0.0, 2.0])],
                                "cycle": cyc,
-                               "offset": r.choice([0, 1, 7]), "active": r.random() < 0.85,
+                               "offset": r.choice([0, 1, 7]), "active": r.random() < 0.85, "cyc_active": r.random() < 0.85,
                                "direction": r.choice(["ALL", "LEFT", "STRAIGHT", "RIGHT", "LEFT_STRAIGHT"])})
     if len(ids) >= 2 and r.random() < 0.5:
         incs = []
